@@ -111,7 +111,7 @@ class Hold(AsyncEventProcessor):
 
 
 def run_scheduled(ctx, graph, values, choices=(), *, adversarial=False, runner=None, processors=(), park_starts=True,
-                  method="run", on_quiescent=None, **kw):
+                  method="run", on_quiescent=None, pre=None, **kw):
     """Run graph on AsyncRunner under the harness scheduler.  Returns (Outcome, Sched).  Deadlock -> Outcome('deadlock')."""
     sched = Sched(choices, adversarial=adversarial, park_starts=park_starts)
     sched.on_quiescent = on_quiescent
@@ -122,6 +122,8 @@ def run_scheduled(ctx, graph, values, choices=(), *, adversarial=False, runner=N
 
     async def go():
         fn = getattr(runner, method)
+        if pre is not None:
+            await pre(runner)  # earlier calls awaited from the SAME task (context variables are inherited by `main`)
         main = asyncio.ensure_future(fn(graph, dict(values), event_processors=[*processors, hold], **kw))
         return await sched.drive(main)
 
